@@ -662,15 +662,17 @@ func vSttsTotal(s *mp4.SttsBox) uint64 {
 //	payloadLen : zero(0|1) : timescale,timescale,...   (chunk offsets in the tables are relative to the mdat payload)
 //
 // First track is video, the others audio, unless a 10th field gives one handler letter per track (v = vide, s = soun,
-// o = subt); an 11th field "mem" decodes the input mdat into memory instead of lazily.
+// o = subt); an 11th field "mem" decodes the input mdat into memory instead of lazily; a 12th field "dup" gives the
+// second track the track ID of the first.
 // Result: <payload base>/<old size without mdat>/<rest = that size minus the Size() of the table boxes>/
 //
 //	ok/<start of new mdat>/<its size field>/<bytes written>/<samples per track>/<chunk offsets per track>/
 //	<mvhd duration>/<tkhd durations>/<checksum of the new mdat payload, - when it is not kept>
 func vVirt(stbls []*mp4.StblBox, a []string) string {
-	if len(a) < 9 || len(a) > 11 {
+	if len(a) < 9 || len(a) > 12 {
 		return "badcase"
 	}
+	dupIDs := len(a) == 12 && a[11] == "dup" // tracks 1 and 2 carry the same track ID
 	handlers := ""
 	if len(a) >= 10 {
 		handlers = strings.ReplaceAll(a[9], ",", "")
@@ -678,7 +680,7 @@ func vVirt(stbls []*mp4.StblBox, a []string) string {
 			return "badcase"
 		}
 	}
-	memMode := len(a) == 11 && a[10] == "mem"
+	memMode := len(a) >= 11 && a[10] == "mem"
 	n := func(i int) uint64 { v, _ := strconv.ParseUint(a[i], 10, 64); return v }
 	tss := vU32s(a[8])
 	if len(tss) != len(stbls) {
@@ -699,6 +701,9 @@ func vVirt(stbls []*mp4.StblBox, a []string) string {
 		trak := mp4.NewTrakBox()
 		tkhd := mp4.CreateTkhd()
 		tkhd.TrackID = uint32(i + 1)
+		if dupIDs && i > 0 {
+			tkhd.TrackID = uint32(i)
+		}
 		tkhd.Duration = trakDur
 		trak.AddChild(tkhd)
 		mdia := mp4.NewMdiaBox()
